@@ -28,10 +28,10 @@ ModHist == \/ \E v \in {"V1", "V2"}, a \in {"bin1", "src"}, m \in Mods, p \in MC
                 IN /\ ModAdd("V1", a, "m2", u, k, p, "binary", rl)
                    /\ hist' = Append(hist, MRec("V1", a, "m2", u, k, p, "binary", rl))
 XRec(v, a, p, s, c) == [op |-> "xfadd", v |-> v, a |-> a, path |-> p, size |-> s, cks |-> c, out |-> out']
-XfMatrix == \E v \in Vs, a \in As, p \in Paths, s \in {"s1"}, c \in {"one", "two", "notadict"} :
+XfMatrix == \E v \in Vs, a \in As, p \in Paths, s \in {"s1", "s0"}, c \in {"one", "two", "notadict", "nosums"} :     \* "s0": a file of zero length; "nosums": no checksum yet
                 /\ XfAdd(v, a, p, s, c) /\ hist' = Append(hist, XRec(v, a, p, s, c))
 XfHist == \E v \in {"V1", "V2"}, a \in {"bin1", "unknown"}, p \in MCOkPaths \cup {"abs"}, c \in {"one", "notadict"} :
-                LET s == IF p = "rel1" THEN "s1" ELSE "s2"
+                LET s == IF p = "rel1" THEN "s1" ELSE (IF v = "V2" THEN "s0" ELSE "s2")
                     cc == IF c = "one" /\ v = "V2" THEN "two" ELSE c
                 IN /\ XfAdd(v, a, p, s, cc) /\ hist' = Append(hist, XRec(v, a, p, s, cc))
 \* the per-tree export between adds: base "os" is a prefix of rel1 only (rel2 lives in .../osx), "top" of both
